@@ -514,20 +514,36 @@ theorem argmaxAbs_permL {l : Nat} (hl : 0 < l) {ρ ρi : Nat → Nat} (hρ : Per
   rw [permL_getD ρ l v _ (hρ.lt' _ hk), permL_getD ρ l v _ hk', hρ.right _ hk] at h2
   exact absurd h2 (not_le.mpr h1)
 
-/-- **the unit normalisation of `ac2mp_poly` commutes with the permutation** when the component of
-    largest magnitude of `C·q` is attained once (ties are outside the property's domain) -/
-theorem phiCell_perm {l d : Nat} (hl : 0 < l) {ρ ρi π πi : Nat → Nat} (hρ : PermOn l ρ ρi)
+/-- **the unit normalisation of `ac2mp_poly` commutes with the permutation** when the cell of the
+    original run is NaN (blanked, or `C·q = 0`: then it is NaN in the permuted run as well) or the
+    component of largest magnitude of `C·q` is attained once (ties are outside the property's domain) -/
+theorem phiCell_perm [IsStrictOrderedRing K] {l d : Nat} (hl : 0 < l) {ρ ρi π πi : Nat → Nat}
+    (hρ : PermOn l ρ ρi)
     (hπ : PermOn d π πi) (C C' : Mat K) (hr : C.r = l) (hr' : C'.r = l) (hc : C.c = d) (hc' : C'.c = d)
     (he : ∀ o, o < l → ∀ j, j < d → C'.e o j = C.e (ρ o) (π j))
     (lambd : Option (Plscf.Cx K)) (q : List (Plscf.Cx K))
-    (huniq : ∀ i, i < l → i ≠ argmaxAbs (phiRaw C q) →
+    (huniq : phiCell C lambd q ≠ none → ∀ i, i < l → i ≠ argmaxAbs (phiRaw C q) →
       Cx.normSq ((phiRaw C q).getD i ⟨0, 0⟩)
         < Cx.normSq ((phiRaw C q).getD (argmaxAbs (phiRaw C q)) ⟨0, 0⟩)) :
     phiCell C' lambd (permL π d q) = (phiCell C lambd q).map (permL ρ l) := by
-  unfold phiCell
+  by_cases hnone : phiCell C lambd q = none
+  · rw [hnone]
+    rcases (phiCell_eq_none_iff C lambd q).mp hnone with hb | hz
+    · exact (phiCell_eq_none_iff C' lambd _).mpr (Or.inl hb)
+    · refine (phiCell_eq_none_iff C' lambd _).mpr (Or.inr ?_)
+      rw [phiRaw_perm hρ hπ C C' hr hr' hc hc' he q]
+      intro y hy
+      obtain ⟨a, _, rfl⟩ := List.mem_map.mp hy
+      rw [List.getD_eq_getElem?_getD]
+      cases hk : (phiRaw C q)[ρ a]? with
+      | none => exact ⟨rfl, rfl⟩
+      | some x => exact hz x (List.mem_of_getElem? hk)
+  have huniq := huniq hnone
+  unfold phiCell at hnone ⊢
   by_cases hb : blanked lambd
-  · rw [if_pos hb, if_pos hb]; rfl
-  · rw [if_neg hb, if_neg hb]
+  · rw [if_pos hb] at hnone; exact absurd rfl hnone
+  · rw [if_neg hb] at hnone
+    rw [if_neg hb, if_neg hb]
     have hvl : (phiRaw C q).length = l := by simp [phiRaw, hr]
     simp only [phiRaw_perm hρ hπ C C' hr hr' hc hc' he q]
     obtain ⟨hk, hk'⟩ := argmaxAbs_permL hl hρ (phiRaw C q) hvl huniq
@@ -548,11 +564,12 @@ theorem phiCell_perm {l d : Nat} (hl : 0 < l) {ρ ρi π πi : Nat → Nat} (hρ
 def permColumn (ρ : Nat → Nat) (l : Nat) (col : Column K) : Column K :=
   { fn := col.fn, xi := col.xi, phi := col.phi.map (Option.map (permL ρ l)), lam := col.lam }
 
-theorem ac2mpPoly_perm {l d : Nat} (hl : 0 < l) {ρ ρi π πi : Nat → Nat} (hρ : PermOn l ρ ρi)
+theorem ac2mpPoly_perm [IsStrictOrderedRing K] {l d : Nat} (hl : 0 < l) {ρ ρi π πi : Nat → Nat} (hρ : PermOn l ρ ρi)
     (hπ : PermOn d π πi) (C C' : Mat K) (hr : C.r = l) (hr' : C'.r = l) (hc : C.c = d) (hc' : C'.c = d)
     (he : ∀ o, o < l → ∀ j, j < d → C'.e o j = C.e (ρ o) (π j))
     (sqrt : K → K) (twoPi invdt : K) (cor : Bool) (invTau : K) (eigs : List (EigIn K))
-    (huniq : ∀ e ∈ eigs, blanked (lambdOf invdt e) = false → ∀ i, i < l → i ≠ argmaxAbs (phiRaw C e.q) →
+    (huniq : ∀ e ∈ eigs, phiCell C (lambdOf invdt e) e.q ≠ none →
+      ∀ i, i < l → i ≠ argmaxAbs (phiRaw C e.q) →
       Cx.normSq ((phiRaw C e.q).getD i ⟨0, 0⟩)
         < Cx.normSq ((phiRaw C e.q).getD (argmaxAbs (phiRaw C e.q)) ⟨0, 0⟩)) :
     ac2mpPoly sqrt twoPi invdt cor invTau C' (eigs.map (permEig π d))
@@ -563,10 +580,7 @@ theorem ac2mpPoly_perm {l d : Nat} (hl : 0 < l) {ρ ρi π πi : Nat → Nat} (h
     apply List.map_congr_left
     intro e he'
     show phiCell C' (lambdOf invdt e) (permL π d e.q) = (phiCell C (lambdOf invdt e) e.q).map (permL ρ l)
-    by_cases hb : blanked (lambdOf invdt e) = true
-    · unfold phiCell; rw [if_pos hb, if_pos hb]; rfl
-    · exact phiCell_perm hl hρ hπ C C' hr hr' hc hc' he _ _
-        (huniq e he' (by simpa using hb))
+    exact phiCell_perm hl hρ hπ C C' hr hr' hc hc' he _ _ (huniq e he')
   unfold ac2mpPoly permColumn
   simp only [hphi, List.map_map]
   rfl
